@@ -75,7 +75,7 @@ func runC19(c *core.Ctx) {
 				}
 				c.Check(rule, key, "an error that may carry a source/sink failure is never discarded, swallowed or relabelled as a malformed-file error", func(o *core.Ob) {
 					o.At(fn.Site(f.Node, f.Kind+" error of "+f.Callee))
-					if why, ok := c19Justified[base]; ok {
+					if why, ok := c19JustifiedFor(c, fn, f.Kind, f.Callee, 0); ok {
 						o.Fact("justified: %s", why)
 						return
 					}
@@ -98,3 +98,39 @@ func runC19(c *core.Ctx) {
 func init() { c19Extra = ruleC19Structure }
 
 var c19Extra func(c *core.Ctx)
+
+// c19JustifiedFor looks a sink up in the table of justified sinks.  A
+// justification given for a function also covers an unexported helper all of
+// whose callers (in its package) are covered: moving the justified code into
+// a helper does not change what happens to the error.
+func c19JustifiedFor(c *core.Ctx, fn *core.Func, kind, callee string, depth int) (string, bool) {
+	if why, ok := c19Justified[fn.Key+"|"+kind+"|"+callee]; ok {
+		return why, true
+	}
+	if depth >= 2 || fn.Obj.Exported() {
+		return "", false
+	}
+	var why string
+	n := 0
+	for _, other := range c.Prog.Funcs(fn.Pkg) {
+		if other == fn {
+			continue
+		}
+		calls := false
+		for _, cs := range core.CallsIn(other.Info(), other.Decl.Body, true) {
+			if cs.Fn == fn.Obj {
+				calls = true
+			}
+		}
+		if !calls {
+			continue
+		}
+		w, ok := c19JustifiedFor(c, other, kind, callee, depth+1)
+		if !ok {
+			return "", false
+		}
+		why = w + " (code moved into " + fn.Obj.Name() + ", which only " + other.Obj.Name() + " calls)"
+		n++
+	}
+	return why, n > 0
+}
